@@ -4,6 +4,7 @@ from typing import Awaitable, Callable, Dict, List, Optional, Tuple, Type, Union
 
 import h2
 import h2.connection
+import h2.errors
 import h2.events
 import h2.exceptions
 import priority
@@ -20,7 +21,7 @@ from .events import (
     StreamClosed,
     Trailers,
 )
-from .http_stream import HTTPStream
+from .http_stream import ASGIHTTPState, HTTPStream
 from .ws_stream import WSStream
 from ..config import Config
 from ..events import Closed, Event, RawData, Updated
@@ -237,6 +238,19 @@ class H2Protocol:
                 self.connection.send_headers(event.stream_id, event.headers, end_stream=True)
                 await self._flush()
             elif isinstance(event, StreamClosed):
+                stream = self.streams.get(event.stream_id)
+                if isinstance(stream, HTTPStream) and stream.state in {
+                    ASGIHTTPState.RESPONSE,
+                    ASGIHTTPState.TRAILERS,
+                }:
+                    # The app has stopped part way through the
+                    # response, so tell the client it is incomplete.
+                    if event.stream_id in self.stream_buffers:
+                        await self.stream_buffers[event.stream_id].close()
+                    self.connection.reset_stream(
+                        event.stream_id, h2.errors.ErrorCodes.INTERNAL_ERROR
+                    )
+                    await self._flush()
                 await self._close_stream(event.stream_id)
                 idle = len(self.streams) == 0 or all(
                     stream.idle for stream in self.streams.values()
